@@ -439,6 +439,20 @@ func c14RealManager(sum *Summary) error {
 		return nil
 	}
 	noteID("create c after slash-name requests", tc.ClusterID)
+	// names that are prefixes / extensions of each other: deleting one leaves the others alone
+	for _, n := range []string{"ab", "a-archive", "a.b", "aa"} {
+		tn, err := tm.CreateTable(n)
+		if err != nil {
+			return err
+		}
+		noteID("create "+n, tn.ClusterID)
+	}
+	if err := tm.DeleteTable("a"); err != nil {
+		return err
+	}
+	if err := tm.DeleteTable("aa"); err != nil {
+		sum.violate(0, "deleting a table removed another table whose name starts with its name", in("create ab, a-archive, a.b, aa; delete a; delete aa"), err.Error())
+	}
 	ts, err := tm.GetTables()
 	if err != nil {
 		return err
@@ -448,7 +462,7 @@ func c14RealManager(sum *Summary) error {
 		listed = append(listed, t.Name)
 	}
 	sort.Strings(listed)
-	if strings.Join(listed, ",") != "a,b,c" {
+	if strings.Join(listed, ",") != "a-archive,a.b,ab,b,c" {
 		sum.violate(0, "listing does not reflect precisely the created-and-not-deleted tables", in("list"), strings.Join(listed, ","))
 	}
 	sum.Evaluations += 12
